@@ -109,7 +109,9 @@ def check(denses, commons, N, acc, base, only_call=None):
     scaffold = M.scaffold_of(denses)
     dims = [M.build_index(d, c) for d, c in zip(denses, commons)]
     light = is_heavy(N, [list(d.shape[1:]) for d in denses]) and base.get("tier") == "quick"
-    for call in (call_menu(N, light) if only_call is None else [only_call]):
+    menu = call_menu(N, light)
+    pipeline_calls = [menu[0], menu[-1]] + ([only_call] if only_call is not None else [])
+    for call in (menu if only_call is None else [only_call]):
         agg, ignore, ws, fs = call
         f_arg, x, valid, K, w_arg, w, wok = c03.realise(N, ws, fs)
         grand = Q.grand_total(x, w, N, K)
@@ -146,6 +148,47 @@ def check(denses, commons, N, acc, base, only_call=None):
                 msg = eq(blk, rs, grand)
                 if msg:
                     acc.violation("%s:%s:block" % (kind, agg), dict(case, block=list(fc)), "block at extra coords %r != cube of the 1-D slices: %s" % (fc, msg))
+        if call in pipeline_calls and "ccube" in full:
+            # (i) one index cube asked again after each in-place change of its first dimension == a cube built after the change
+            hd = [M.build_index(d, c) for d, c in zip(denses, commons)]
+            try:
+                held = ccube(hd, interacting_shape=shape)
+                f2, _, _, _, w2, _, _ = c03.realise(N, ws, fs)
+                Q.call_cube(held, agg, f2, w2, ignore, Q.NaN)
+                for label, apply, nd in Q.in_place_changes(hd, denses):
+                    apply()
+                    f2, _, _, _, w2, _, _ = c03.realise(N, ws, fs)
+                    r_held = Q.normalise(Q.call_cube(held, agg, f2, w2, ignore, Q.NaN), Q.NaN)
+                    f2, _, _, _, w2, _, _ = c03.realise(N, ws, fs)
+                    r_new = Q.normalise(Q.call_cube(ccube(hd, interacting_shape=shape), agg, f2, w2, ignore, Q.NaN), Q.NaN)
+                    acc.count("pipeline_evals")
+                    msg = eq(r_held, r_new, grand)
+                    if msg:
+                        acc.violation("ccube:%s:same-cube-after-change" % agg, dict(case, after=label), "the cube built before %s vs a cube built after it: %s" % (label, msg))
+                        break
+            except Exception as e:  # noqa
+                acc.violation("ccube:%s:same-cube-after-change:raised" % agg, case, repr(e))
+        if call in pipeline_calls and "xcube" in full and N:
+            # (ii) the array cube over the narrow unsigned arrays an index converts to: evaluated twice, the arrays must stay what they were
+            # and both evaluations (and a second cube over the same arrays) must agree
+            try:
+                narrow = [Q.unsigned_view(d) for d in denses]
+                snap = [a.tobytes() for a in narrow]
+                xc = xcube(narrow, interacting_shape=shape)
+                outs = []
+                for cube_ in (xc, xc, xcube(narrow, interacting_shape=shape)):
+                    f2, _, _, _, w2, _, _ = c03.realise(N, ws, fs)
+                    outs.append(Q.normalise(Q.call_cube(cube_, agg, f2, w2, ignore, Q.NaN), Q.NaN))
+                    acc.count("pipeline_evals")
+                if [a.tobytes() for a in narrow] != snap:
+                    acc.violation("xcube:%s:dimension-array-modified" % agg, case, "evaluating the array cube changed the caller's dimension arrays")
+                for i, o in enumerate(outs):
+                    msg = eq(o, full["xcube"], grand)
+                    if msg:
+                        acc.violation("xcube:%s:repeated-evaluation" % agg, dict(case, evaluation=i), "evaluation %d over the same uint8 / uint16 arrays: %s" % (i, msg))
+                        break
+            except Exception as e:  # noqa
+                acc.violation("xcube:%s:repeated-evaluation:raised" % agg, case, repr(e))
         if len(full) == 2:
             msg = eq(full["ccube"], full["xcube"], grand)
             if msg:
